@@ -202,6 +202,25 @@ def _worker_thread(prop_id, tier, seed, q, agg, lock, timeout, stderr_dir, idx):
             shard = q.get_nowait()
         except queue.Empty:
             break
+        flags = shard.get("_pyflags") if isinstance(shard, dict) else None
+        if flags:
+            # a shard that asks for other interpreter flags (-O: asserts stripped, __debug__ False) runs in a
+            # process of its own
+            one = subprocess.Popen([sys.executable, "-B"] + list(flags) + ["-m", "vf.engine", "--worker", prop_id],
+                                   stdin=subprocess.PIPE, stdout=subprocess.PIPE, stderr=errf, text=True, cwd=ROOT, env=env)
+            try:
+                out, _ = one.communicate(json.dumps({"shard": shard, "tier": tier, "seed": seed, "timeout": timeout}) + "\n", timeout=timeout + 60)
+                line = out.splitlines()[0] if out.strip() else ""
+            except Exception:
+                one.kill()
+                line = ""
+            if not line:
+                with lock:
+                    agg.inconclusive.append("worker with flags %r died on shard %r" % (flags, shard))
+                continue
+            with lock:
+                agg.merge(json.loads(line))
+            continue
         if proc is None or proc.poll() is not None:
             proc = start()
         try:
